@@ -6,7 +6,7 @@ import re
 from . import common as c
 
 PREAMBLE = ("From Coq Require Import NArith ZArith List. Import ListNotations.\n"
-            "From CB Require Import Contract.Text Contract.Names Contract.CheckedArith Contract.CcCodec Contract.CcTypes.\n"
+            "From CB Require Import Contract.Text Contract.Names Contract.CheckedArith Contract.CcCodec Contract.CcTypes Contract.Base58.\n"
             "Open Scope N_scope.\n")
 
 # harness type name -> codec term of Contract/CcTypes.v
@@ -134,6 +134,26 @@ def b58check_decode_account(s):
     if hashlib.sha256(hashlib.sha256(raw[:33]).digest()).digest()[:4] != raw[33:]:
         return None
     return raw[1:33].hex()
+
+
+
+def b58_raw(s):
+    """plain Base58 decoding (reference), None if a character is outside the alphabet"""
+    if any(ch not in B58 for ch in s):
+        return None
+    n = 0
+    for ch in s:
+        n = n * 58 + B58.index(ch)
+    zeros = len(s) - len(s.lstrip("1"))
+    return b"\0" * zeros + n.to_bytes((n.bit_length() + 7) // 8, "big")
+
+
+def dsha4(payload):
+    import hashlib
+    return list(hashlib.sha256(hashlib.sha256(bytes(payload)).digest()).digest()[:4])
+
+
+KEYLEN = {"pk_ed25519": 32, "pk_ecdsa": 33, "sig_ed25519": 64, "sig_ecdsa": 64}
 
 
 def model_values(seed, n):
@@ -391,6 +411,30 @@ def run(ctx):
             exprs.append("(construct_receive_name %s %s, receive_name_check (construct_receive_name %s %s))" % (
                 nlist(cs["c"]), nlist(cs["e"]), nlist(cs["c"]), nlist(cs["e"])))
             idx.append((i, "construct"))
+        elif cs["k"] == "parts":
+            exprs.append("split_dot %s" % nlist(cs["s"]))
+            idx.append((i, "parts"))
+        elif cs["k"] == "hp":
+            exprs.append("hex_print %s" % nlist(unhex(cs["bytes"])))
+            idx.append((i, "hexprint"))
+        elif cs["k"] == "hs":
+            if cs["t"] != "hash" and any(x >= 128 for x in cs["s"]):
+                continue        # outside the model (byte offsets inside a character): observation below
+            if cs["t"] == "hash":
+                exprs.append("parse_hash %s" % nlist(cs["s"]))
+            else:
+                exprs.append("parse_key %d %s" % (KEYLEN[cs["t"]], nlist(cs["s"])))
+            idx.append((i, "hexparse"))
+        elif cs["k"] == "acc_print":
+            # the model is evaluated with the real checksum bytes: first 4 bytes of SHA-256(SHA-256(01 || address))
+            ck = dsha4([1] + unhex(cs["bytes"]))
+            exprs.append("print_account_address (fun _ => %s) %s" % (nlist(ck), nlist(unhex(cs["bytes"]))))
+            idx.append((i, "accprint"))
+        elif cs["k"] == "acc_parse":
+            raw = b58_raw(cs["s"])
+            ck = dsha4(raw[:-4]) if raw is not None and len(raw) >= 4 else [0, 0, 0, 0]
+            exprs.append("parse_account_address (fun _ => %s) %s" % (nlist(ck), nlist([ord(ch) for ch in cs["s"]])))
+            idx.append((i, "accparse"))
     ctx.log("text: %d expressions; evaluating the model" % len(exprs))
     terms = c.coq_eval(ctx, "text", PREAMBLE, exprs, shard=500)
     ctx.log("text: model evaluated")
@@ -407,7 +451,7 @@ def run(ctx):
     for (i, kind), term in zip(idx, terms):
         cs = tcases[i]
         t = cs.get("t", "construct")
-        key = c.digest([kind, t, cs.get("v"), cs.get("s"), cs.get("c"), cs.get("e")])
+        key = c.digest([kind, t, cs.get("v"), cs.get("s"), cs.get("c"), cs.get("e"), cs.get("bytes")])
         seen.add(key)
         if kind == "print":
             tdist[t + ":print"] = tdist.get(t + ":print", 0) + 1
@@ -443,6 +487,49 @@ def run(ctx):
                    "%s string %r: implementation %s, model %s" % (t, cs["txt"], json.dumps(cs["r"]), model))
             elif impl != "PANIC" and impl[0] == "ok":
                 nontrivial.add(key)
+        elif kind == "parts":
+            tdist["receive_name:parts"] = tdist.get("receive_name:parts", 0) + 1
+            if [list(term[0]), list(term[1])] != [cs["c"], cs["e"]]:
+                tv({"kind": "parts", "case": cs, "model": str(term)}, "ReceiveName contract_name / entrypoint_name differ from the model split at the first dot")
+            else:
+                nontrivial.add(key)
+        elif kind == "hexprint":
+            tdist[t + ":print"] = tdist.get(t + ":print", 0) + 1
+            text = "".join(chr(x) for x in cs["s"])
+            if cs["back"] != cs["bytes"]:
+                tv({"kind": "hex print-parse", "type": t, "bytes": cs["bytes"], "printed": text, "parsed_back": cs["back"]},
+                   "%s %s prints as %r which parses back as %s" % (t, cs["bytes"], text, cs["back"]))
+            elif list(term) != cs["s"]:
+                tv({"kind": "hex print", "type": t, "bytes": cs["bytes"], "impl": text, "model": "".join(chr(x) for x in term)},
+                   "%s %s: implementation prints %r, model %r" % (t, cs["bytes"], text, "".join(chr(x) for x in term)))
+            else:
+                nontrivial.add(key)
+        elif kind == "hexparse":
+            tdist[t + ":" + cs["cls"]] = tdist.get(t + ":" + cs["cls"], 0) + 1
+            m = None if term == "None" else bytes(term[1]).hex()
+            if cs["r"] != m:
+                tv({"kind": "hex parse", "type": t, "class": cs["cls"], "string": cs["txt"], "impl": cs["r"], "model": m,
+                    "theorem": "hash_parse_print / key_parse_print are about this model parser"},
+                   "%s string %r: implementation %s, model %s" % (t, cs["txt"], cs["r"], m))
+            elif m is not None:
+                nontrivial.add(key)
+        elif kind == "accprint":
+            tdist["account_address:model-print"] = tdist.get("account_address:model-print", 0) + 1
+            if list(term) != [ord(ch) for ch in cs["s"]]:
+                tv({"kind": "account-address-print", "bytes": cs["bytes"], "impl": cs["s"], "model": "".join(chr(x) for x in term),
+                    "theorem": "account_address_parse_print is about the model printer"},
+                   "AccountAddress %s: implementation prints %s, model %s" % (cs["bytes"], cs["s"], "".join(chr(x) for x in term)))
+            else:
+                nontrivial.add(key)
+        elif kind == "accparse":
+            tdist["account_address:model-parse"] = tdist.get("account_address:model-parse", 0) + 1
+            m = None if term == "None" else bytes(term[1]).hex()
+            if cs["r"] != m:
+                tv({"kind": "account-address-parse", "string": cs["s"], "impl": cs["r"], "model": m,
+                    "theorem": "account_address_accepts_iff: the model parser accepts exactly the printed strings"},
+                   "AccountAddress string %r: implementation %s, model %s" % (cs["s"], cs["r"], m))
+            elif m is not None:
+                nontrivial.add(key)
         else:
             tdist["construct"] = tdist.get("construct", 0) + 1
             name, chk = term
@@ -476,6 +563,12 @@ def run(ctx):
                 tv({"kind": "account-address-parse", "string": cs["s"], "impl": cs["r"], "reference": want},
                    "AccountAddress string %r: implementation %s, Base58Check(version 1) reference %s" % (cs["s"], cs["r"], want))
     ctx.notes["text_distribution"] = tdist
+    nonascii = [cs for cs in tcases if cs["k"] == "hs" and cs["t"] != "hash" and any(x >= 128 for x in cs["s"])]
+    ctx.notes["observation_key_hex_nonascii"] = {
+        "count": len(nonascii), "panics": sum(1 for cs in nonascii if cs["r"] == "PANIC"),
+        "example": next(({"type": cs["t"], "string": cs["txt"]} for cs in nonascii if cs["r"] == "PANIC"), None),
+        "note": "outside the property's list of text forms: FromStr of PublicKey*/Signature* slices the string at byte offsets and panics "
+                "when an offset falls inside a multi-byte character (string of the right byte length); never a violation here"}
     ctx.notes["observation_O4_duration_overflow"] = {"count": len(o4), "examples": o4[:4],
                                                       "note": "outside the claim: panics with overflow checks, wraps without"}
     # regression guard for the repaired finding: timestamps >= 2^63 and years >= 10000 must be exercised
